@@ -328,7 +328,7 @@ def check(prop, tier, seed, replay=None):
         rule = ("states/transitions: TLC's counts over the Minimize design-model runs (all behaviours in scope) plus the trace-validation "
                 "runs; one evaluation = one recorded event (begin / callback / hook iteration / exit / end) judged by TraceOptim; "
                 "cells = re-derived by the trace spec from the logged fields (acceptance reason per strategy, class of rho and pred_red, "
-                "status, options, family, shape, mode, minimiser clause per kind|shape|mode, A1/A3 observations)")
+                "status, options, family, shape, mode, minimiser clause per kind|shape|mode, A3 / null-step / reset observations)")
         return oc.finish("model_checking", rule, ASSUME,
                          extra_cov={"checker_cmd": "TLC on Minimize.tla (BFS, configurations in the evidence) and TraceOptim.tla (one process per trace chunk)"})
     finally:
